@@ -10,7 +10,7 @@
 (* A (partial) selection is a function sel : ChIds(g) -> 0..g.n, where 0   *)
 (* means "not taken" and any other value is the node id of the option.     *)
 (***************************************************************************)
-EXTENDS Integers, Sequences, FiniteSets, TLC
+EXTENDS ConnSem
 
 SeqSet(s) == {s[i] : i \in DOMAIN s}
 NodeIds(g) == 1..g.n
@@ -79,14 +79,88 @@ ViableIn(adm, g, sel, c) == {o \in Opts(g, c) : \E A \in adm : Extends(A, sel) /
 ExtensionExists(adm, sel) == \E A \in adm : Extends(A, sel)
 
 (***************************************************************************)
-(* Connection choices: the choice node is connected from its source        *)
-(* connectors, so it exists in an architecture iff some source does.       *)
+(* Connection choices (docs/theory.md, "Connection Choices").  A choice k  *)
+(* has declared source and target connectors; it is resolved after the     *)
+(* selection choices, for the connectors that exist in architecture A.     *)
+(* The choice node is connected from its sources, so it exists iff some    *)
+(* source exists.  A grouping connector accepts the sums of the allowed    *)
+(* degrees of its PRESENT members.  The valid connection sets are the      *)
+(* matrices of ConnSem over all declared connectors with absent ones       *)
+(* forced to 0 -- one uniform rule that also covers "all sources absent"   *)
+(* (present targets must accept 0) and "all targets absent".               *)
 (***************************************************************************)
+CcSrcSeq(g, k) == g.cc[k].src
+CcTgtSeq(g, k) == g.cc[k].tgt
 CcSrc(g, k) == SeqSet(g.cc[k].src)
 CcTgt(g, k) == SeqSet(g.cc[k].tgt)
 ConnActive(g, A, k) == CcSrc(g, k) \cap A.nodes # {}
-\* placeholder until the connection semantics (ConnSem) is imported: a description without connection choices
-ConnFeasibleArch(g, A) == TRUE
+
+NodeAllowed(g, n, d) == AllowedSpec(g.nodes[n], d)
+OpenEnded(g, n) == g.nodes[n].dl = <<>> /\ g.nodes[n].dmax < 0
+MinDeg(g, n) == IF g.nodes[n].dl # <<>> THEN CHOOSE m \in SeqSet(g.nodes[n].dl) : \A x \in SeqSet(g.nodes[n].dl) : m <= x
+                ELSE g.nodes[n].dmin
+RECURSIVE SumMin(_, _)
+SumMin(g, M) == IF M = {} THEN 0 ELSE LET m == CHOOSE x \in M : TRUE IN MinDeg(g, m) + SumMin(g, M \ {m})
+\* sums of one allowed degree per member, bounded by hi
+RECURSIVE MemberSums(_, _, _)
+MemberSums(g, M, hi) ==
+    IF M = {} THEN {0}
+    ELSE LET m == CHOOSE x \in M : TRUE IN
+         {a + b : a \in {d \in 0..hi : NodeAllowed(g, m, d)}, b \in MemberSums(g, M \ {m}, hi)} \cap (0..hi)
+\* degree d allowed for connector n of a connection choice in architecture A (d <= hi)
+ConnAllowed(g, A, n, d, hi) ==
+    IF n \notin A.nodes THEN d = 0
+    ELSE IF Kind(g, n) = "grp" THEN
+         LET M == Members(g, n) \cap A.nodes IN
+         IF \E m \in M : OpenEnded(g, m) THEN d >= SumMin(g, M) ELSE d \in MemberSums(g, M, hi)
+    ELSE NodeAllowed(g, n, d)
+ConnRep(g, A, n) == IF Kind(g, n) = "grp" THEN \E m \in Members(g, n) \cap A.nodes : g.nodes[m].rep ELSE g.nodes[n].rep
+
+RECURSIVE SetSeq(_)
+SetSeq(S) == IF S = {} THEN <<>> ELSE LET m == CHOOSE x \in S : \A y \in S : x <= y IN <<m>> \o SetSeq(S \ {m})
+
+\* the per-pair limits as the documentation gives them: 0 for excluded pairs and absent ends, 1 if either end forbids
+\* parallel connections, otherwise the parallel limit = max(2, largest finite degree of a present end)
+\* largest finite degree of a present end (a grouping connector counts with the largest sum of its present members)
+FiniteTop(g, n) == IF g.nodes[n].dl # <<>> THEN (CHOOSE m \in SeqSet(g.nodes[n].dl) : \A x \in SeqSet(g.nodes[n].dl) : x <= m) ELSE g.nodes[n].dmax
+RECURSIVE SumTop(_, _)
+SumTop(g, M) == IF M = {} THEN 0 ELSE LET m == CHOOSE x \in M : TRUE IN FiniteTop(g, m) + SumTop(g, M \ {m})
+MaxFinite(g, A, k) ==
+    LET ends == (CcSrc(g, k) \cup CcTgt(g, k)) \cap A.nodes
+        plainTops == {FiniteTop(g, n) : n \in {x \in ends : Kind(g, x) = "conn" /\ ~OpenEnded(g, x)}}
+        grpTops == {SumTop(g, Members(g, n) \cap A.nodes) : n \in {x \in ends : Kind(g, x) = "grp" /\ \A m \in Members(g, x) \cap A.nodes : ~OpenEnded(g, m)}}
+        tops == plainTops \cup grpTops
+    IN IF tops = {} THEN 2 ELSE LET t == CHOOSE m \in tops : \A x \in tops : x <= m IN IF t > 2 THEN t ELSE 2
+ExclPairs(g, k) == {<<p[1], p[2]>> : p \in SeqSet(g.cc[k].excl)}
+SemCap(g, A, k) ==
+    [i \in DOMAIN CcSrcSeq(g, k) |-> [j \in DOMAIN CcTgtSeq(g, k) |->
+        LET s == CcSrcSeq(g, k)[i]
+            t == CcTgtSeq(g, k)[j]
+        IN IF s \notin A.nodes \/ t \notin A.nodes \/ <<s, t>> \in ExclPairs(g, k) THEN 0
+           ELSE IF ~ConnRep(g, A, s) \/ ~ConnRep(g, A, t) THEN 1
+           ELSE MaxFinite(g, A, k)]]
+
+RowCapSum(cap, i) == SumSeq(cap[i])
+ColCapSum(cap, j) == SumSeq([i \in DOMAIN cap |-> cap[i][j]])
+\* the ConnSem problem of choice k in architecture A under per-pair limits cap: every connector gets an explicit
+\* finite list of allowed degrees (bounded by what the limits permit)
+DummySpec == [dl |-> <<>>, dmin |-> 0, dmax |-> -1, rep |-> TRUE]
+GProb(g, A, k, cap) ==
+    LET S == CcSrcSeq(g, k)
+        Tg == CcTgtSeq(g, k)
+    IN [src |-> [i \in DOMAIN S |-> DummySpec], tgt |-> [j \in DOMAIN Tg |-> DummySpec],
+        so |-> [i \in DOMAIN S |-> <<i, SetSeq({d \in 0..RowCapSum(cap, i) : ConnAllowed(g, A, S[i], d, RowCapSum(cap, i))})>>],
+        to |-> [j \in DOMAIN Tg |-> <<j, SetSeq({d \in 0..ColCapSum(cap, j) : ConnAllowed(g, A, Tg[j], d, ColCapSum(cap, j))})>>],
+        cap |-> cap, mcp |-> 0]
+ValidConnSets(g, A, k, cap) == ValidMatrices(GProb(g, A, k, cap))
+IsValidConnSet(g, A, k, cap, m) == IsValidMatrix(GProb(g, A, k, cap), m)
+\* a scenario (selection-level architecture) is kept iff every connection choice has at least one valid set
+ConnFeasibleArch(g, A) == \A k \in CcIds(g) : ValidConnSets(g, A, k, SemCap(g, A, k)) # {}
+
+\* connection edges (list of <<s, t>> pairs between connector node ids) -> matrix over the declared connectors of k
+EdgeCount(edges, s, t) == Cardinality({i \in DOMAIN edges : edges[i][1] = s /\ edges[i][2] = t})
+EdgeMatrix(g, k, edges) == [i \in DOMAIN CcSrcSeq(g, k) |-> [j \in DOMAIN CcTgtSeq(g, k) |-> EdgeCount(edges, CcSrcSeq(g, k)[i], CcTgtSeq(g, k)[j])]]
+EdgesOfChoice(g, k, edges) == SelectSeq(edges, LAMBDA e : e[1] \in CcSrc(g, k) /\ e[2] \in CcTgt(g, k))
 
 (***************************************************************************)
 (* The edges an architecture consists of (as a set of pairs): declared     *)
